@@ -8,7 +8,8 @@ def traces(ctx, n):
     rec = ctx.path("join.ndjson")
     p = c.vh(["joinrec", "--n", n, "--seed", ctx.seed, "--out", rec], timeout=1800)
     if p.returncode != 0:
-        raise c.ToolError("joinrec failed: " + p.stderr[-500:])
+        c.recorder_failed(ctx, "joinrec", p, "join-trace")
+        return
     info = json.loads(p.stdout.strip().splitlines()[-1])
     r = c.tlc_trace(ctx, "Trace_StreamJoin.tla", "Trace_StreamJoin.cfg", rec, timeout=1800)
     furthest = None
